@@ -25,6 +25,7 @@ package main
 //	stop                                                    -> ok | err <message>
 //	events                                                  -> the metric events recorded since the last call, ';'-separated
 //	goroutines                                              -> <count>
+//	stacks                                                  -> goroutine profile, one line
 //	quit
 import (
 	"bufio"
@@ -32,6 +33,7 @@ import (
 	"net"
 	"os"
 	"runtime"
+	"runtime/pprof"
 	"strconv"
 	"strings"
 	"sync"
@@ -155,6 +157,10 @@ func TestVerifDriver(t *testing.T) {
 			reply("%s", strings.Join(vm.take(), ";"))
 		case "goroutines":
 			reply("%d", runtime.NumGoroutine())
+		case "stacks":
+			var sb strings.Builder
+			pprof.Lookup("goroutine").WriteTo(&sb, 1)
+			reply("%s", strings.ReplaceAll(sb.String(), "\n", " | "))
 		case "quit":
 			reply("bye")
 			return
